@@ -137,6 +137,13 @@ class FactoryAllHandles(FnSpec):
                 ("equals-the-handle-set", F.new.s_hasarr(Val.a(F.result.t)) == F.old.s_hasarr(Val.a(F.old.fld("_tasks", f))))]
 
 
+def private_handle_set(F):
+    """A-DC: the factory's handle set is the set its dataclass default_factory created: nobody else's container (ownership tag `nobody`)"""
+    ts = F.old.fld("_tasks", F.addr("self"))
+    return [("handle-set-is-private-to-the-factory", z3.And(Val.is_ref(ts), 0 <= Val.a(ts), Val.a(ts) < F.old.alloc,
+                                                            z3.Select(F.old.g("g:owner"), Val.a(ts)) == con("own:nobody")))]
+
+
 class FactoryStartSoon(FnSpec):
     """C09: start_task_soon - fresh handle (own scope, own event); the task is spawned in the factory's group running
     _run_background_task(func, handle, factory.exception_handler); the handle is in the handle set iff the spawn succeeded."""
@@ -148,6 +155,9 @@ class FactoryStartSoon(FnSpec):
 
     def tasks(self, F):
         return Val.a(F.old.fld("_tasks", F.addr("self")))
+
+    def requires(self, F):
+        return private_handle_set(F)
 
     def ensures(self, F):
         f = F.addr("self")
@@ -222,7 +232,7 @@ class FactoryRunBackgroundTask(FnSpec):
         return [("factory-context-initialised", z3.And(Val.is_ref(c), is_ctx(F.old, Val.a(c)),
                                                        z3.Implies(subcls(F.old.fld("__class__", Val.a(c)), con("ComponentContext")),
                                                                   z3.Select(F.old.g("g:cc_init"), Val.a(c))))),
-                ("handle-is-registered", F.old.s_has(Val.a(F.old.fld("_tasks", f)), F.t("task_handle")))]
+                ("handle-is-registered", F.old.s_has(Val.a(F.old.fld("_tasks", f)), F.t("task_handle")))] + private_handle_set(F)
 
     def extra_rely(self, eng, st, anchor=""):
         f = Val.a(st.env["self"].t)
